@@ -94,6 +94,9 @@ def set_mode(mode):
         pp.ParserElement.enable_left_recursion(mode[1])
 
 
+LAST_STATS = [0, 0]   # [hits, misses] of the packrat cache during the last real run
+
+
 class _Timeout(BaseException):
     pass
 
@@ -115,12 +118,13 @@ def run_real(root, dumper, inp, mode, entry, timeout=0.75):
     finally:
         signal.setitimer(signal.ITIMER_REAL, 0)
         signal.signal(signal.SIGALRM, old_handler)
+        LAST_STATS[:] = list(pp.ParserElement.packrat_cache_stats)
         pp.ParserElement.disable_memoization()
 
 
 def _run_real(root, dumper, inp, mode, entry):
     set_mode(mode)
-    try:
+    if True:
         if entry[0] == "parse":
             try:
                 r = root.parse_string(inp, parse_all=entry[1])
@@ -148,8 +152,6 @@ def _run_real(root, dumper, inp, mode, entry):
                 fin = ("err", type(e).__name__, None, "", None)
             return ("scan", out, fin)
         raise ValueError(entry)
-    finally:
-        pp.ParserElement.disable_memoization()
 
 
 # ---------- the model ----------
